@@ -31,9 +31,9 @@ variant o3u gcc -O3 "" "-funsigned-char"
 variant clang clang -O2 "-fno-builtin" ""
 # rand.c is anchored only as qsort's pivot source; it must still compile
 par igc_one $BUILD/shim $BUILD/igc_rand_unused.o $REPO/compat/libc/stdlib/rand.c
-CXX="g++ -std=c++17 -O2 -g -fno-builtin -I$MC -I$H"
+CXX="g++ -std=c++20 -O2 -g -fno-builtin -I$MC -I$H"
 for t in c11_strto c11_sort c11_large; do par $CXX -c $H/$t.cpp -o $BUILD/$t.o; done
-par g++ -std=c++17 -O2 -c -I$MC $MC/mc.cpp -o $BUILD/mc.o
+par g++ -std=c++20 -O2 -c -I$MC $MC/mc.cpp -o $BUILD/mc.o
 parwait
 igc_resolve $OBJS   # qsort's memcpy (and anything else the repository's stdlib objects do not define) binds to the host
 for fn in strtol strtoul strtoll strtoull strtoimax strtoumax atoi atol qsort bsearch; do
